@@ -4,7 +4,7 @@ from wallet_common import *
 
 MANIFEST_ENTRY = dict(
     cat="model_checking", ref='DESIGN.md 4 C05', engine="wallet-tla",
-    text='TLC explores every flow (send, late-locked send in thorough, invoice in thorough) cancelled at every stage by log id and by slate id, with a second pending transaction, including refused cancels (confirmed, already cancelled, coinbase, unknown), and checks CancelIsRollback / CancelRefusedUnchanged as action properties on the model; the generated behaviours run on real wallets (the driver makes the refresh that owner::cancel_tx performs observable as its own step) and TLC judges the exact-rollback frame condition on the observed before/after states.',
+    text='TLC explores every flow (send, late-locked send in thorough, invoice in thorough) cancelled at every stage by log id and by slate id, with a second pending transaction, with two change outputs (MC_C05_chg.cfg), in two funded accounts with equal log ids, including refused cancels (confirmed, already cancelled, coinbase, unknown), and checks CancelIsRollback / CancelRefusedUnchanged as action properties on the model; the generated behaviours run on real wallets (the driver makes the refresh that owner::cancel_tx performs observable as its own step) and TLC judges the exact-rollback frame condition on the observed before/after states.',
     technique="TLC model checking of spec/MCWallet.tla + TLC-generated behaviours replayed on the real code + TLC trace validation (spec/TraceWallet.tla)",
     note=WALLET_NOTE)
 
